@@ -16,12 +16,15 @@ RULES = {
     "wrapper only clones its parameter",
     "R2": "flag soundness: on every path, a statement that writes model state is followed or preceded by an "
     "unconditional set of a flag that flows into the returned `modified`, or folds a flag-returning helper's "
-    "result into it, or is covered by a test of the same collection, or is in the idiom table",
+    "result into it, or is covered by a test of the same collection, or is in the idiom table"
+    " ; helpers that answer with literal True/False are flag functions (a write on a path ending in return False)",
     "R3": "flag monotonicity: inside loops a variable that flows into the returned `modified` is only set by "
-    "monotone forms (True, x or flag, |=, +=), also in Sequential/PassManager",
+    "monotone forms (True, x or flag, |=, +=), also in Sequential/PassManager"
+    " ; no model-writing call sits in a short-circuited operand of and/or",
     "R4": "temporary-mutation protocol of call_onnx_api: snapshot before the first mutation, nothing that can "
     "raise between the first mutation and the protecting try, the finally restores every mutated field, ordered "
-    "containers are restored wholesale",
+    "containers are restored wholesale"
+    " ; P0: the undo code is in a finally (in call_onnx_api or in the context-manager helper it enters)",
     "R5": "passes declaring changes_input = False write model state only through the R4 protocol",
     "R6": "history-free pass objects (shared with C05-R5): per-run state kept on a pass object is re-initialised "
     "unconditionally before its first use in call()/requires(), so a reused pass object (Sequential, PassManager) does to a "
